@@ -105,7 +105,7 @@ func (c *scnCtx) sequential(order []int) seqOutcome {
 		for _, id := range order {
 			res[id] = c.ops[id].Run(func() {})
 		}
-		o = seqOutcome{results: res, final: scn.Final()}
+		o = seqOutcome{results: res, final: scn.FinalFor(c.s)}
 	}()
 	c.seq[k] = o
 	return o
@@ -113,13 +113,13 @@ func (c *scnCtx) sequential(order []int) seqOutcome {
 
 // safeFinal reads the final state; a lock some operation never released shows as the shim's
 // "would deadlock" panic.
-func safeFinal() (final, held string) {
+func safeFinal(s scn.Scenario) (final, held string) {
 	defer func() {
 		if r := recover(); r != nil {
 			held = fmt.Sprint(r)
 		}
 	}()
-	return scn.Final(), ""
+	return scn.FinalFor(s), ""
 }
 
 func kinds(s scn.Scenario) string {
@@ -187,7 +187,7 @@ func (c *scnCtx) scenario() sched.Scenario {
 			for _, k := range changed {
 				keptFs = append(keptFs, sched.Finding{Clause: "C16.torn", Key: keptKey(c.fib, k.Kind, c.s), Detail: k.String()})
 			}
-			final, held := safeFinal()
+			final, held := safeFinal(c.s)
 			var deadRefs []uint64
 			if held == "" && scn.Family(c.s.Name) == "D" {
 				deadRefs = scn.DeadFaceRefs()
@@ -252,6 +252,7 @@ func (c *scnCtx) scenario() sched.Scenario {
 			}
 			finalOK, linOK, seqBlocked := false, false, false
 			var firstDiff string
+			var closest []string // the sections in which the final state differs from the closest sequential outcome
 			// Three-valued part of the oracle. A management command that is guarded by the existence
 			// of a face (rib/register, fib/add-nexthop with a FaceId; faces/destroy) and that found the
 			// face already unpublished by a teardown still in progress has left the tables untouched.
@@ -306,6 +307,9 @@ func (c *scnCtx) scenario() sched.Scenario {
 					continue
 				}
 				if o.final != final {
+					if d := scn.DiffSections(final, o.final); closest == nil || len(d) < len(closest) {
+						closest = d
+					}
 					continue
 				}
 				finalOK = true
@@ -331,7 +335,35 @@ func (c *scnCtx) scenario() sched.Scenario {
 				if scn.Family(c.s.Name) == "D" {
 					what = strings.Join(updateKinds(c.s), "||") // (the key names the updates that collided, not the readers next to them)
 				}
-				if len(deadRefs) > 0 {
+				onlyStrategy := len(closest) > 0
+				for _, sec := range closest {
+					onlyStrategy = onlyStrategy && strings.HasPrefix(sec, "strategy choices")
+				}
+				if onlyStrategy {
+					// next hops, routes and faces are those of some order, the strategy choices are not: the key
+					// names the strategy updates of the scenario, whatever ran next to them
+					var g []string
+					for _, k := range updateKinds(c.s) {
+						if strings.Contains(k, "Strategy") {
+							g = append(g, k)
+						}
+					}
+					what = "the strategy choices are those of no order (next hops, routes and faces are): " + strings.Join(g, "||")
+				} else if stale := scn.StaleFaces(final); len(stale) > 0 {
+					// the symptom is in the face/dispatch table itself: name it and the operations on faces
+					set := map[string]bool{}
+					for _, op := range c.ops {
+						if strings.HasPrefix(op.Kind, "Face") {
+							set[op.Kind] = true
+						}
+					}
+					var g []string
+					for k := range set {
+						g = append(g, k)
+					}
+					sort.Strings(g)
+					what = "a face that was torn down is still found under its id after all operations completed: " + strings.Join(g, "||")
+				} else if len(deadRefs) > 0 {
 					// one root cause, one key: name the teardown and the face-guarded command kind(s)
 					set := map[string]bool{}
 					for _, op := range c.ops {
@@ -349,7 +381,7 @@ func (c *scnCtx) scenario() sched.Scenario {
 					}
 					what = "a route or next hop of a torn-down face remains: " + what
 				}
-				fs = append(fs, sched.Finding{Clause: "C16.final", Key: c.fib + " final tables match no sequential order: " + what, Detail: fmt.Sprintf("(faces no longer in the face table that still own a route or next hop: %v) ", deadRefs) + "final state " + final + " equals the outcome of no real-time-consistent sequential order of " + c.s.Name})
+				fs = append(fs, sched.Finding{Clause: "C16.final", Key: c.fib + " final tables match no sequential order: " + what, Detail: fmt.Sprintf("(faces no longer in the face table that still own a route or next hop: %v) ", deadRefs) + fmt.Sprintf("differs from the closest sequential outcome in %v; ", closest) + "final state " + final + " equals the outcome of no real-time-consistent sequential order of " + c.s.Name})
 			} else if !linOK {
 				// which op kinds have results that no order explains
 				if staleLookup != "" {
@@ -505,16 +537,23 @@ func racePass(rep *report.Reporter, cov report.Coverage, budget time.Duration, s
 	// family D (teardown of registered faces against face-guarded management commands): dealt in
 	// the same way, alternating with family C
 	{
-		var jobsD, cd []job
+		var jobsD, jobsE, cd []job
 		for i := range all {
 			if scn.Family(all[i].Name) == "D" {
 				jobsD = append(jobsD, job{"tree", i}, job{"ht", i})
 			}
+			if scn.Family(all[i].Name) == "E" {
+				jobsE = append(jobsE, job{"tree", i}, job{"ht", i})
+			}
 		}
-		for len(jobsC) > 0 || len(jobsD) > 0 {
+		for len(jobsC) > 0 || len(jobsD) > 0 || len(jobsE) > 0 {
 			if len(jobsD) > 0 {
 				cd = append(cd, jobsD[0])
 				jobsD = jobsD[1:]
+			}
+			if len(jobsE) > 0 {
+				cd = append(cd, jobsE[0])
+				jobsE = jobsE[1:]
 			}
 			if len(jobsC) > 0 {
 				cd = append(cd, jobsC[0])
